@@ -27,7 +27,8 @@ def run(ctx):
         "Queue.Add's shutdown test and its push are one atomic step of the model (the code tests IsShutdown before taking heapMutex; an Add racing with Shutdown was not reproduced in 3000 trials)",
         "PanicOnModificationsAfterShutdown, DontWaitForShutdown/shutdownWG and Poll(waitIfEmpty=false) are outside the model; workers are Poll(true) loops as in Executor.startBackgroundWorkers",
         "timer accuracy and scheduler latency are runtime behaviour: the timing runs judge recorded stamps with a guard band of one grid step (50 ms); the timer is modelled as 'fires at or after its time'",
-        "TaskExecutor theorems assume an unbounded queue, no CancelPendingElements shutdown and cancellation by identifier only (finding taskexecutor-stale-identifier otherwise)",
+        "C18_task_executor clauses 2-5 are for schedules passing te_guard: no Add whose size bound drops an element, no effective Shutdown with CancelPendingElements, no Cancel() through the returned *ScheduledTask of a task the map still tracks (exactly the patterns of finding taskexecutor-stale-identifier, witnesses C18_refuted_stale_identifier); clause 1 (a replaced/cancelled task never starts) is unguarded",
+        "C18_eventually_once_fair: fairness is a premise on the schedule (only ticks and worker steps, every worker scheduled infinitely often, clock unbounded); real scheduler fairness and timer firing are runtime behaviour",
     ]
 
 
